@@ -9,7 +9,7 @@ VARIABLE l
 TraceLog == ndJsonDeserialize(IOEnv.TRACE)
 
 TDims   == <<0, 1, 2>>
-TMasks  == <<1, 2, 7>>
+TMasks  == <<1, 2, 7, 8>>
 TClis   == <<0, 1, 65535>>
 TPaths  == <<<<1, 1, 1>>, <<1, 1, 2>>, <<1, 2, 1>>, <<2, 1, 1>>, <<2, 1, 2>>, <<255, 255, 255>>>>
 NoSeq == <<>>
